@@ -64,7 +64,7 @@ ToModel(x) ==
                ELSE [alive |-> TRUE, ty |-> x.mesh[m].ty, kern |-> x.mesh[m].kern, trk |-> x.mesh[m].trk,
                      pers |-> x.mesh[m].pers, posh |-> x.mesh[m].posh]],
    sto  |-> [i \in 1 .. (Len(x.sto) + Pad) |-> IF i <= Len(x.sto) THEN x.sto[i] ELSE DeadSto],
-   slot |-> x.slot, ret |-> "ok", err |-> ""]
+   slot |-> x.slot, ret |-> "ok", err |-> "", busy |-> {}]
 
 (* a completed world up to storage identities *)
 StoOr(x, i) == IF i = 0 THEN DeadSto ELSE x.sto[i]
